@@ -157,6 +157,22 @@ async fn variant<K: HKey>(
                         ));
                     }
                 }
+                // ... and stay the same when the reopened storage sheds what it holds in memory:
+                // what was read from the index files (filters, offsets) is then really used
+                for op in [Op::Offload { level: 0 }, Op::FreeExcess] {
+                    let _ = w2.apply(op).await;
+                    ctl::quiesce().await;
+                    let obs2 = w2.observe(&spec.keys, &spec.metas).await;
+                    let b2 = oracle::query_part(&obs2);
+                    for (k, va) in &a {
+                        if b2.get(k) != Some(va) {
+                            fs.push(finding(
+                                "answers_differ",
+                                format!("k{k}: before close {:?}, after reopen and {} {:?}", va, op.short(), b2.get(k)),
+                            ));
+                        }
+                    }
+                }
                 // the storage is usable: a probe write survives a rotation
                 w2.label_prefix = "probe".into();
                 let p1 = w2.apply(Op::w(9, 9)).await;
